@@ -127,7 +127,7 @@ type hres struct {
 func (h *H) partD(rng *vh.Rng, cw *vh.Cases) {
 	n := 250
 	if h.a.Thorough() {
-		n = 5000
+		n = 2000 // (5000 histories were 125 case files of 40, ~10 s each on the loaded machine; see main.go for the file size)
 	}
 	if h.a.N > 0 {
 		n = h.a.N
